@@ -1,6 +1,10 @@
 open Datatypes
 
+val tl : 'a1 list -> 'a1 list
+
 val nth_error : 'a1 list -> nat -> 'a1 option
+
+val removelast : 'a1 list -> 'a1 list
 
 val rev : 'a1 list -> 'a1 list
 
